@@ -170,7 +170,15 @@ def classify(run, tags, spans, fns, sections, lines, fn_props):
         msg = d["message"]
         if msg.startswith("aborting due to"):
             continue
-        sps = [s for s in d.get("spans", []) if s["file_name"].endswith("griddle_verus.rs")]
+        sps = []
+        for s_ in d.get("spans", []):
+            # a diagnostic inside a macro expansion points into the macro's definition: follow it back to our file
+            hop = 0
+            while s_ is not None and not s_["file_name"].endswith("griddle_verus.rs") and hop < 8:
+                s_ = (s_.get("expansion") or {}).get("span")
+                hop += 1
+            if s_ is not None and s_["file_name"].endswith("griddle_verus.rs"):
+                sps.append(s_)
         prim = [s for s in sps if s["is_primary"]]
         # once Verus has reached the verification stage every error is a failed obligation (or a solver limit)
         is_verif = verified_stage and not d.get("code")
@@ -228,7 +236,15 @@ def classify(run, tags, spans, fns, sections, lines, fn_props):
                     dprops.add("C04")
                 names.append("assert")
         elif "precondition not satisfied" in msg:
-            if "unreachable_unchecked" in text:
+            if "debug_assert" in text and not names:
+                dprops.update(["C17"])          # a debug-only assertion that can fire: the profiles diverge
+                names.append("debug_assert")
+            elif re.search(r"\bassert(_eq|_ne)?!", text) and not names:
+                dprops.update(["C01"])          # a release-mode assertion that can fire: an undocumented panic
+                if fkey == "RawTable::insert":
+                    dprops.add("C04")
+                names.append("assert")
+            elif "unreachable_unchecked" in text:
                 dprops.update(["C05"])
                 names.append("unreachable_unchecked") if not names else None
             elif "unreachable!" in text:
@@ -237,8 +253,20 @@ def classify(run, tags, spans, fns, sections, lines, fn_props):
             elif ".expect(" in text or "expect(" in text or ".unwrap(" in text:
                 dprops.update(["C01", "C10"])
                 names.append("expect") if not names else None
+            elif re.search(r"\bhasher\s*\(", text) and not names:
+                # the hasher was applied to something the contract does not let this function hash (hash budget)
+                dprops.update(["C02", "C07"])
+                names.append("hash_budget")
             if any(n.startswith("dep.") for n in names):
                 dprops.add("C05")
+        elif "callee.requires" in msg:
+            # a call of a user closure whose precondition the contract does not grant
+            if re.search(r"\bhasher\s*\(", text) and not names:
+                dprops.update(["C02", "C07"])   # hash budget: the hasher was applied to something this function may not hash
+                names.append("hash_budget")
+            elif not names:
+                dprops.update(["C07"])
+                names.append("closure_call")
         elif "decreases" in msg or "termination" in msg:
             if not names:
                 dprops.update(["C02", "C03"])
